@@ -247,6 +247,7 @@ void  XMLBigDecimal::parseDecimal(const XMLCh* const toParse
     }
 
     // Strip leading zeros
+    const XMLCh* const digitsPtr = startPtr;
     while (*startPtr == chDigit_0)
         startPtr++;
 
@@ -285,6 +286,10 @@ void  XMLBigDecimal::parseDecimal(const XMLCh* const toParse
         *retPtr++ = *startPtr++;
         totalDigits++;
     }
+
+    // at least one digit is required: a lone '.' is not a decimal
+    if (dotSignFound && (endPtr - digitsPtr) == 1)
+        ThrowXMLwithMemMgr(NumberFormatException, XMLExcepts::XMLNUM_Inv_chars, manager);
 
     /***
     E2-44 totalDigits
@@ -348,6 +353,7 @@ void  XMLBigDecimal::parseDecimal(const XMLCh*         const toParse
     }
 
     // Strip leading zeros
+    const XMLCh* const digitsPtr = startPtr;
     while (*startPtr == chDigit_0)
         startPtr++;
 
@@ -381,6 +387,10 @@ void  XMLBigDecimal::parseDecimal(const XMLCh*         const toParse
         startPtr++;
 
     }
+
+    // at least one digit is required: a lone '.' is not a decimal
+    if (dotSignFound && (endPtr - digitsPtr) == 1)
+        ThrowXMLwithMemMgr(NumberFormatException, XMLExcepts::XMLNUM_Inv_chars, manager);
 
     return;
 }
